@@ -37,14 +37,14 @@ type c10Params struct {
 func (c10) ID() string    { return "C10" }
 func (c10) Level() string { return "exploration" }
 func (c10) Rule() string {
-	return "each case is a history drawn from the seed over one client configuration (one session cache) and 1-3 real servers at distinct addresses (one cache each): connect (handshake + echo), server loses its cache (restart), client or server changes its enabled suites, a scripted client offers a forged or stale session id, a handshake that offered a session is ruined (transport cut / peer gone); with or without client certificates; both stacks. A reference model of the caches predicts for every connection whether it resumes. Oracle: DidResume on both sides equals the prediction and every honest connection succeeds; a resumed connection reports the original peer certificates and has fresh randoms and Finished values; new session ids are 32 bytes and unique in the history; after a ruined handshake the next ClientHello to that server carries no session id (wire). distinct = distinct histories; non-trivial = at least one resumption and one non-trivial event (restart, reconfiguration, forged id, ruin)"
+	return "each case is a history drawn from the seed over one client configuration (one session cache) and 1-3 real servers at distinct addresses (one cache each): connect (handshake + echo), server loses its cache (restart), client or server changes its enabled suites, a scripted client offers a forged or stale session id, a handshake that offered a session is ruined (transport cut / peer gone), servers and client move to another CA (cached sessions no longer verify; and back); with or without client certificates; both stacks. A reference model of the caches predicts for every connection whether it resumes. Oracle: DidResume on both sides equals the prediction and every honest connection succeeds; a resumed connection reports the original peer certificates on both sides and has fresh randoms and Finished values; new session ids are 32 bytes and unique in the history; after a ruined handshake the next ClientHello to that server carries no session id (wire). distinct = distinct histories; non-trivial = at least one resumption and one non-trivial event (restart, reconfiguration, forged id, ruin)"
 }
 func (c10) Components() (real, stub []string) {
 	return []string{"tlcp/dtlcp client and servers (instrumented): loadSession, checkForResumption, session creation and cleanup, lruSessionCache"},
 		[]string{"transport (with cut), clock, randomness, scheduler", "forged-id client: scripted peer"}
 }
 func (c10) Assumptions() []string {
-	return []string{"resumption is expected exactly when the client holds a session for that destination, the server still holds its id, and its suite is still enabled on both sides", "caches are large (capacity 64) here; small capacities are C11's subject"}
+	return []string{"resumption is expected exactly when the client holds a session for that destination whose recorded certificates verify under the roots now configured, the server still holds its id, and its suite is still enabled on both sides", "caches are large (capacity 64) here; small capacities are C11's subject"}
 }
 func (c10) Count(tier string) int {
 	if tier == "thorough" {
@@ -59,9 +59,13 @@ func (c10) Make(tier string, seed uint64, i int) *Case {
 func drawC10(src *vs.Src) *c10Params {
 	p := &c10Params{Stack: pickStr(src, []string{TLCP, DTLCP}), ClientAuth: src.Bool(1, 3), Servers: 1 + src.Intn(3)}
 	n := 3 + src.Intn(7)
+	if src.Bool(1, 4) {
+		// start with the key-agreement suites only (they need the client's certificates whatever the policy)
+		p.Ops = append(p.Ops, c10Op{Op: "client-suites", Suites: []uint16{ECDHE_GCM, ECDHE_CBC}})
+	}
 	for i := 0; i < n; i++ {
 		op := c10Op{Server: src.Intn(p.Servers)}
-		switch src.Intn(12) {
+		switch src.Intn(13) {
 		case 0, 1, 2, 3, 4, 5:
 			op.Op = "connect"
 		case 6:
@@ -74,8 +78,12 @@ func drawC10(src *vs.Src) *c10Params {
 			op.Suites = drawSuites(src)
 		case 9:
 			op.Op = "forged"
-		default:
+		case 10:
 			op.Op = "ruin"
+		default:
+			// the servers move to certificates of the other CA and the client to that CA as its only root
+			// (caches stay): sessions recorded with the old certificates no longer pass the client's checks
+			op.Op = "rotate"
 		}
 		if (op.Op == "client-suites" || op.Op == "server-suites") && op.Suites != nil && len(op.Suites) == 0 {
 			op.Suites = nil
@@ -90,7 +98,9 @@ type c10Session struct {
 	id     string
 	suite  uint16
 	server int
-	peer   [][]byte
+	peer   [][]byte // server certificates as the client saw them
+	speer  [][]byte // client certificates as the server saw them
+	set    int      // certificate set in force when the session was made
 	cr, sr []byte
 	fin    [2][12]byte
 }
@@ -127,6 +137,7 @@ func (c10) Run(c *Case, src *vs.Src) *Result {
 	allIDs := map[string]bool{}
 	mustNotOffer := map[int]bool{} // destination whose last handshake (offering a session) was ruined
 	nResumed, nEvents := 0, 0
+	certSet := 0
 	for n, op := range p.Ops {
 		tag := fmt.Sprintf("op#%d %s(server %d)", n, op.Op, op.Server)
 		switch op.Op {
@@ -143,14 +154,21 @@ func (c10) Run(c *Case, src *vs.Src) *Result {
 			serverSuites[op.Server] = op.Suites
 			nEvents++
 			continue
+		case "rotate":
+			certSet = 1 - certSet
+			nEvents++
+			continue
 		}
 		w := NewWorld(c.Seed+uint64(n), src)
 		w.K.MaxElapsed = 60 * time.Second
 		env := NewEnv(w)
 		env.TCaches["c"], env.DCaches["c"] = tcC, dcC
 		env.TCaches["s"], env.DCaches["s"] = tcS[op.Server], dcS[op.Server]
-		cc := &EPConf{Suites: clientSuites, ServerName: "server.test", Cache: "c"}
+		cc := &EPConf{Suites: clientSuites, ServerName: "server.test", Cache: "c", Roots: []string{"ca1"}}
 		sc := &EPConf{Suites: serverSuites[op.Server], Certs: []string{"server_sig", "server_enc"}, ClientCAs: []string{"ca1"}, Cache: "s"}
+		if certSet == 1 {
+			cc.Roots, sc.Certs = []string{"ca2"}, []string{"server_untrusted_sig", "server_untrusted_enc"}
+		}
 		// the client always holds both key pairs (so that ECDHE suites stay negotiable); policy decides whether they are asked for
 		cc.Certs = []string{"client_sig", "client_enc"}
 		if p.ClientAuth {
@@ -238,8 +256,9 @@ func (c10) Run(c *Case, src *vs.Src) *Result {
 				r.Violate("ruin", sigp+" ruined-handshake-succeeded", "%s: harness could not ruin the handshake", tag)
 				return r
 			}
-			if prev != nil {
-				// the failed handshake offered prev: the client must forget it
+			if prev != nil && prev.set == certSet {
+				// the failed handshake offered prev (its recorded certificates verify under the roots in force, so
+				// the client does offer it): the client must forget it
 				delete(clientHas, op.Server)
 				mustNotOffer[op.Server] = true
 			}
@@ -273,7 +292,7 @@ func (c10) Run(c *Case, src *vs.Src) *Result {
 		// prediction
 		expect := false
 		if prev != nil {
-			if s, ok := serverHas[op.Server][prev.id]; ok {
+			if s, ok := serverHas[op.Server][prev.id]; ok && prev.set == certSet {
 				expect = hasSuite(enabledSuites(clientSuites), s.suite) && hasSuite(enabledSuites(serverSuites[op.Server]), s.suite) &&
 					(!IsECDHE(s.suite) || true)
 			}
@@ -297,6 +316,9 @@ func (c10) Run(c *Case, src *vs.Src) *Result {
 				if !equalDERs(out.CCS.Peer, prev.peer) {
 					r.Violate("identity", sigp+" resumed-identity-changed", "%s: a resumed connection reports different peer certificates than the original", tag)
 				}
+				if !equalDERs(out.SCS.Peer, prev.speer) {
+					r.Violate("identity", sigp+" resumed-client-identity-changed", "%s: on the server a resumed connection reports %d client certificates, the original connection reported %d (suite %04x, client-auth policy on: %v)", tag, len(out.SCS.Peer), len(prev.speer), out.SCS.Suite, p.ClientAuth)
+				}
 				if bytes.Equal(cr, prev.cr) || bytes.Equal(sr, prev.sr) {
 					r.Violate("fresh-keys", sigp+" randoms-reused", "%s: a resumed connection reuses a random of the original connection", tag)
 				}
@@ -312,7 +334,7 @@ func (c10) Run(c *Case, src *vs.Src) *Result {
 				r.Violate("session-id", sigp+" session-id-reused", "%s: session id %x was issued before in this history", tag, srvID)
 			}
 			allIDs[sid] = true
-			s := &c10Session{id: sid, suite: out.CCS.Suite, server: op.Server, peer: out.CCS.Peer, cr: cr, sr: sr, fin: out.CFin}
+			s := &c10Session{id: sid, suite: out.CCS.Suite, server: op.Server, peer: out.CCS.Peer, speer: out.SCS.Peer, set: certSet, cr: cr, sr: sr, fin: out.CFin}
 			clientHas[op.Server] = s
 			serverHas[op.Server][sid] = s
 		}
